@@ -90,3 +90,60 @@ def config_default(h):
                 ctx.oblige('%s.__iter__: hands the stored policy to %s (a later change of the config does not reach an existing view); nothing read' % (qn.split('.')[-1], gen),
                            z3.BoolVal(bool(ok) and not getattr(T, 'iterators', [])))
             h.explore(body)
+
+
+CONV = 'petl.transform.conversions.'
+# (wrapper, positional arguments after the table, what the field selection handed on must be: 'field' | 'all')
+WRAPPERS = [('replace', ['FIELD', 'A', 'B'], 'field'), ('update', ['FIELD', 'VAL'], 'field'), ('format', ['FIELD', 'FMT'], 'field'),
+            ('interpolate', ['FIELD', 'FMT'], 'field'), ('replaceall', ['A', 'B'], 'all'), ('formatall', ['FMT'], 'all'),
+            ('interpolateall', ['FMT'], 'all'), ('convertnumbers', [], 'all'), ('convertall', ['CONV'], 'all')]
+
+
+@vc('C19.conversion-wrappers', functions=[CONV + w[0] for w in WRAPPERS], props=['C19', 'C12'],
+    assumptions=['convert / convertall through recording summaries (their own contracts: C19.*, C12.*)'])
+def conversion_wrappers(h):
+    """the convenience forms of convert hand the caller's keyword arguments -- failonerror, errorvalue, where, pass_row -- through
+    UNCHANGED and add none of their own (so the three-way failure policy and the config default apply to them exactly as to convert);
+    the per-field forms convert exactly the field they are given, the *all forms go through convertall (every column by POSITION)."""
+    for name, pos, scope in WRAPPERS:
+        for strict in ((False, True) if name == 'convertnumbers' else (None,)):
+            def body(ctx, name=name, pos=pos, scope=scope, strict=strict):
+                it = h.interp(ctx)
+                calls = []
+
+                def rec(which):
+                    def summary(interp, args, kw, node):
+                        o = Opaque('view', which)
+                        calls.append((which, list(args), dict(kw), o))
+                        return o
+                    return summary
+                it.summaries[CONV + 'convert'] = rec('convert')
+                if name != 'convertall':
+                    it.summaries[CONV + 'convertall'] = rec('convertall')
+                hdr = (sym_cell('h0'), sym_cell('h1'), sym_cell('h2'))
+                it.summaries['petl.util.base.header'] = lambda interp, args, kw, node: hdr
+                T = Opaque('table', 't')
+                vals = {k: sym_cell(k.lower()) for k in ('FIELD', 'A', 'B', 'VAL', 'FMT')}
+                vals['CONV'] = UCall('conv')
+                fo, ev, wh = sym_cell('failonerror'), sym_cell('errorvalue'), UCall('where')
+                user_kw = {'failonerror': fo, 'errorvalue': ev, 'where': wh}
+                kw = dict(user_kw)
+                if strict is not None:
+                    kw['strict'] = strict
+                r = it.call(closure_of(it, CONV + name), [T] + [vals[p] for p in pos], kw)
+                ok = len(calls) == 1 and r is calls[0][3] and calls[0][1][0] is T
+                c = calls[0] if calls else (None, [], {}, None)
+                same_kw = set(c[2]) == set(user_kw) and all(c[2][k] is user_kw[k] for k in user_kw)
+                ctx.oblige('%s: ONE call of convert%s on the caller\'s table, whose result is returned' % (name, 'all' if scope == 'all' and name != 'convertall' else ''), z3.BoolVal(bool(ok)))
+                ctx.oblige('%s: failonerror / errorvalue / where go through unchanged and nothing is added (the policy and its config default are convert\'s)' % name,
+                           z3.BoolVal(bool(same_kw)))
+                if scope == 'field':
+                    ctx.oblige('%s: exactly the given field is converted' % name, z3.BoolVal(bool(ok) and c[0] == 'convert' and c[1][1] is vals['FIELD']))
+                elif name == 'convertall':
+                    sel = c[1][1] if len(c[1]) > 1 else None
+                    items = list(sel.items) if isinstance(sel, PyList) else list(sel) if isinstance(sel, (list, tuple)) else None
+                    ctx.oblige('convertall: every column is selected by POSITION 0 .. len(header)-1 (duplicate field names are all converted)',
+                               z3.BoolVal(bool(ok) and c[0] == 'convert' and items == [0, 1, 2] and c[1][2] is vals['CONV']))
+                else:
+                    ctx.oblige('%s: goes through convertall' % name, z3.BoolVal(bool(ok) and c[0] == 'convertall'))
+            h.explore(body)
